@@ -1,6 +1,7 @@
 package main
 
 import (
+	"go/ast"
 	"fmt"
 	"go/token"
 	"go/types"
@@ -105,7 +106,7 @@ func encodeFuncOnce(P *Program, CS *ContractSet, fn *ssa.Function, ct *Contract,
 		e := &Enc{P: P, CS: CS, Fn: fn, Ct: ct, Pkg: fn.Pkg, preOK: map[string]bool{}, vals: map[ssa.Value]Val{},
 			reach: map[int]string{}, endSt: map[int]*State{}, knownSorts: known, pass: pass, strLits: map[string]string{},
 			typeIDs: map[string]int{}, typeOfID: map[int]types.Type{}, globalIDs: map[string]int{}, abstracted: map[string]int{},
-			skolemBounds: map[string][2]string{}, usedTrusted: map[string]bool{}, assumptions: map[string]bool{}, occ: map[string]int{}, loops: map[int]*loopInfo{},
+			skolemBounds: map[string][2]string{}, skolemOf: map[string]string{}, usedTrusted: map[string]bool{}, assumptions: map[string]bool{}, occ: map[string]int{}, loops: map[int]*loopInfo{},
 			loopOf: map[int][]*loopInfo{}, dbg: map[string][]dbgRef{}, params: map[string]Val{}, fnName: res.Name, disabledCands: disabled}
 		if e.Pkg == nil && fn.Parent() != nil {
 			e.Pkg = fn.Parent().Pkg
@@ -489,10 +490,13 @@ type loopMods struct {
 	sorts  map[Sort][]string // sort -> base object terms (nil entry with "*" means unknown base)
 	unk    map[Sort]bool
 	allocs bool
+	// cells: writes known at cell granularity (a field of a struct reached through a loop-invariant pointer, or the
+	// field/slice targets of a callee's modifies clause with loop-invariant arguments): obj, [lo, hi)
+	cells map[Sort][][3]string
 }
 
 func (e *Enc) loopModifies(li *loopInfo) *loopMods {
-	lm := &loopMods{sorts: map[Sort][]string{}, unk: map[Sort]bool{}}
+	lm := &loopMods{sorts: map[Sort][]string{}, unk: map[Sort]bool{}, cells: map[Sort][][3]string{}}
 	inLoop := func(v ssa.Value) bool {
 		if ins, ok := v.(ssa.Instruction); ok && ins.Block() != nil {
 			return li.blocks[ins.Block().Index]
@@ -549,6 +553,18 @@ func (e *Enc) loopModifies(li *loopInfo) *loopMods {
 	addStore := func(t types.Type, addr ssa.Value) {
 		sorts := map[Sort]bool{}
 		e.allSorts(t, sorts)
+		if fa, isFA := addr.(*ssa.FieldAddr); isFA && !inLoop(fa.X) {
+			if b := e.val(fa.X); !b.Bad && len(b.L) == 2 {
+				if stt, isStruct := derefType(fa.X.Type()).Underlying().(*types.Struct); isStruct {
+					lo := e.M.iadd(b.L[1], e.M.ilit(fieldOffset(stt, fa.Field)))
+					hi := e.M.iadd(lo, e.M.ilit(slots(stt.Field(fa.Field).Type())))
+					for s := range sorts {
+						lm.cells[s] = append(lm.cells[s], [3]string{b.L[0], lo, hi})
+					}
+					return
+				}
+			}
+		}
 		base, ok := baseOf(addr)
 		for s := range sorts {
 			if ok {
@@ -603,6 +619,9 @@ func (e *Enc) loopModifies(li *loopInfo) *loopMods {
 				}
 			case ssa.CallInstruction:
 				lm.allocs = true
+				if e.callCells(x, inLoop, lm) {
+					continue
+				}
 				eff := e.callEffect(x)
 				if eff.all {
 					lm.all = true
@@ -623,6 +642,127 @@ func (e *Enc) loopModifies(li *loopInfo) *loopMods {
 		}
 	}
 	return lm
+}
+
+// callCells: a call of a contracted function all of whose modifies targets are fields or slice elements reached from
+// arguments that do not change in the loop: its writes are recorded as cell ranges. Reports whether that was possible.
+func (e *Enc) callCells(c ssa.CallInstruction, inLoop func(ssa.Value) bool, lm *loopMods) bool {
+	callee, key := e.calleeOf(c)
+	ct := e.contractFor(key)
+	if ct == nil || ct.ModHeap || noFrameClaimed(ct) {
+		return false
+	}
+	if ct.Pure {
+		return true
+	}
+	com := c.Common()
+	var ssaArgs []ssa.Value
+	if com.IsInvoke() {
+		ssaArgs = append(ssaArgs, com.Value)
+	}
+	ssaArgs = append(ssaArgs, com.Args...)
+	var pnames []string
+	if callee != nil {
+		f := callee
+		if o := f.Origin(); o != nil {
+			f = o
+		}
+		for _, p := range f.Params {
+			pnames = append(pnames, p.Name())
+		}
+	}
+	if len(ct.Params) == len(ssaArgs) {
+		pnames = ct.Params
+	}
+	if len(pnames) != len(ssaArgs) {
+		return false
+	}
+	// a slice argument made in the loop from an array field of a loop-invariant struct pointer (p.readBuf[left:]):
+	// its cells lie inside that field
+	fieldOfSlice := func(v ssa.Value) (obj, lo, hi string, ok bool) {
+		sl, isSl := v.(*ssa.Slice)
+		if !isSl {
+			return "", "", "", false
+		}
+		fa, isFA := sl.X.(*ssa.FieldAddr)
+		if !isFA || inLoop(fa.X) {
+			return "", "", "", false
+		}
+		b := e.val(fa.X)
+		stt, isStruct := derefType(fa.X.Type()).Underlying().(*types.Struct)
+		if b.Bad || len(b.L) != 2 || !isStruct {
+			return "", "", "", false
+		}
+		lo = e.M.iadd(b.L[1], e.M.ilit(fieldOffset(stt, fa.Field)))
+		return b.L[0], lo, e.M.iadd(lo, e.M.ilit(slots(stt.Field(fa.Field).Type()))), true
+	}
+	vars := map[string]Val{}
+	argOf := map[string]ssa.Value{}
+	for i, a := range ssaArgs {
+		argOf[pnames[i]] = a
+		if inLoop(a) {
+			continue
+		}
+		v := e.val(a)
+		if v.Bad {
+			continue
+		}
+		vars[pnames[i]] = v
+	}
+	pkg := e.Pkg
+	if callee != nil && callee.Pkg != nil {
+		pkg = callee.Pkg
+	}
+	st := e.curState
+	if st == nil {
+		st = e.entry
+	}
+	env := &Env{e: e, vars: vars, st: st, old: st, pkg: pkg}
+	type rng struct {
+		sorts map[Sort]bool
+		cell  [3]string
+	}
+	var out []rng
+	for _, mc := range ct.Modifies {
+		if id, ok := mc.Expr.(*ast.Ident); ok {
+			if _, isGhost := e.CS.Ghosts[id.Name]; isGhost {
+				continue // ghost variables are preserved or updated by the contract itself
+			}
+		}
+		if ix, isIx := mc.Expr.(*ast.IndexExpr); isIx {
+			// x[*]: only for a slice argument cut from an array field of an invariant struct
+			id, isID := ix.X.(*ast.Ident)
+			if !isID || argOf[id.Name] == nil {
+				return false
+			}
+			obj, lo, hi, ok := fieldOfSlice(argOf[id.Name])
+			if !ok {
+				return false
+			}
+			sorts := map[Sort]bool{}
+			if sl, isSlice := argOf[id.Name].Type().Underlying().(*types.Slice); isSlice {
+				e.allSorts(sl.Elem(), sorts)
+			}
+			out = append(out, rng{sorts, [3]string{obj, lo, hi}})
+			continue
+		}
+		save := len(e.errs)
+		obj, off, ft, ok := e.evalModField(mc, env)
+		e.errs = e.errs[:save]
+		if !ok {
+			return false
+		}
+		lo, hi := e.modRange(off, ft)
+		sorts := map[Sort]bool{}
+		e.allSorts(ft, sorts)
+		out = append(out, rng{sorts, [3]string{obj, lo, hi}})
+	}
+	for _, r := range out {
+		for s := range r.sorts {
+			lm.cells[s] = append(lm.cells[s], r.cell)
+		}
+	}
+	return true
 }
 
 func (e *Enc) loopHead(li *loopInfo, st *State, phiIn map[ssa.Value]Val) {
@@ -654,29 +794,64 @@ func (e *Enc) loopHead(li *loopInfo, st *State, phiIn map[ssa.Value]Val) {
 		e.curInstr = b.Instrs[0]
 		e.havocAll(st)
 	} else {
-		var ss []string
+		sortSet := map[string]bool{}
 		for s := range lm.sorts {
-			ss = append(ss, string(s))
+			sortSet[string(s)] = true
+		}
+		for s := range lm.cells {
+			sortSet[string(s)] = true
+		}
+		var ss []string
+		for s := range sortSet {
+			ss = append(ss, s)
 		}
 		sort.Strings(ss)
 		for _, s0 := range ss {
 			s := Sort(s0)
 			old := e.heap(st, s)
 			e.havocSort(st, s)
-			if !lm.unk[s] && len(lm.sorts[s]) > 0 {
-				// frame: objects other than the store bases are unchanged
-				I := m.smtSort(SI)
-				var ne []string
-				seen := map[string]bool{}
-				for _, bo := range lm.sorts[s] {
-					if !seen[bo] {
-						seen[bo] = true
-						ne = append(ne, not(eq("o", bo)))
+			_, hasWhole := lm.sorts[s]
+			if lm.unk[s] || (hasWhole && len(lm.sorts[s]) == 0) {
+				// unknown bases: nothing is known about this component
+				continue
+			}
+			// frame: objects other than the store bases are unchanged; of the objects written at cell granularity
+			// only those cells change
+			I := m.smtSort(SI)
+			var ne []string
+			seen := map[string]bool{}
+			for _, bo := range lm.sorts[s] {
+				if !seen[bo] {
+					seen[bo] = true
+					ne = append(ne, not(eq("o", bo)))
+				}
+			}
+			cellObjs := map[string]bool{}
+			var cellOrder []string
+			for _, c := range lm.cells[s] {
+				if !seen[c[0]] && !cellObjs[c[0]] {
+					cellObjs[c[0]] = true
+					cellOrder = append(cellOrder, c[0])
+					ne = append(ne, not(eq("o", c[0])))
+				}
+			}
+			e.emitAssert(-1, fmt.Sprintf("(forall ((o %s)) (! (=> %s (= (select %s o) (select %s o))) :pattern ((select %s o))))", I, and(ne...), st.H[s], old, st.H[s]))
+			for _, co := range cellOrder {
+				var outside []string
+				for _, c := range lm.cells[s] {
+					if c[0] == co {
+						outside = append(outside, not(and(m.ile(c[1], "k"), m.ilt("k", c[2]))))
+					} else {
+						outside = append(outside, not(and(eq(c[0], co), m.ile(c[1], "k"), m.ilt("k", c[2]))))
 					}
 				}
-				e.emitAssert(-1, fmt.Sprintf("(forall ((o %s)) (! (=> %s (= (select %s o) (select %s o))) :pattern ((select %s o))))", I, and(ne...), st.H[s], old, st.H[s]))
-			} else if len(lm.sorts[s]) == 0 || lm.unk[s] {
-				// unknown bases: objects that existed before the loop and ... nothing is known
+				// an object that is also a whole-object base under another name keeps nothing
+				var notWhole []string
+				for _, bo := range lm.sorts[s] {
+					notWhole = append(notWhole, not(eq(co, bo)))
+				}
+				e.emitAssert(-1, implies(and(notWhole...), fmt.Sprintf("(forall ((k %s)) (! (=> %s (= (select (select %s %s) k) (select (select %s %s) k))) :pattern ((select (select %s %s) k))))",
+					I, and(outside...), st.H[s], co, old, co, st.H[s], co)))
 			}
 		}
 		if lm.allocs {
